@@ -274,6 +274,7 @@ func (rn *runner) runReader(e *RealEnd, tc *TaskCfg, t *Task) {
 		}
 	}
 	scratch := make([]byte, maxSize+1)
+	limitOps := 0
 	for i := 0; ; i++ {
 		if tc.MaxMsgs > 0 && msgs >= tc.MaxMsgs {
 			return
@@ -281,6 +282,12 @@ func (rn *runner) runReader(e *RealEnd, tc *TaskCfg, t *Task) {
 		op := &tc.R[i%len(tc.R)]
 		t.Yield()
 		switch op.Kind {
+		case "limit":
+			c.SetReadLimit(op.NewLimit)
+			limitOps++
+			if limitOps > 4*len(tc.R)+64 {
+				return // a program of nothing but limit changes
+			}
 		case "rm":
 			e.delivered = 0
 			r := t.Begin("ReadMessage", i)
@@ -360,7 +367,12 @@ func (rn *runner) runReader(e *RealEnd, tc *TaskCfg, t *Task) {
 			var all []byte
 			var rerr error
 			calls := 0
+			limitSet := !op.SetLimit
 			for k := 0; ; k++ {
+				if !limitSet && len(all) >= op.LimitAt {
+					c.SetReadLimit(op.NewLimit)
+					limitSet = true
+				}
 				if (op.Abandon > 0 && len(all) >= op.Abandon) || op.Abandon < 0 {
 					br.Note = "abandoned"
 					break
@@ -368,6 +380,9 @@ func (rn *runner) runReader(e *RealEnd, tc *TaskCfg, t *Task) {
 				n := size(op, k)
 				if op.Abandon > 0 && n > op.Abandon-len(all) {
 					n = op.Abandon - len(all)
+				}
+				if !limitSet && n > op.LimitAt-len(all) {
+					n = op.LimitAt - len(all)
 				}
 				buf := scratch[:n]
 				got, err := rd.Read(buf)
